@@ -375,7 +375,7 @@ func runC06Case(c *Ctx, pki *tlsPKI, cs c06Case, idx int, sample func(interface{
 	}
 	// ---- data phase with the prefix-stream monitor
 	seed := r.U64()
-	total := r.Pick(0, 1, 100, 16383, 16384, 16385, 40000)
+	total := r.Pick(0, 1, 100, 16383, 16384, 16385, 40000, 70000, 150000)
 	if c.Thorough && idx%7 == 0 {
 		total = 200 * 1024
 	}
@@ -391,6 +391,49 @@ func runC06Case(c *Ctx, pki *tlsPKI, cs c06Case, idx int, sample func(interface{
 		}
 	}
 	rep.Eval(cls)
+	// ---- a second connection from the same client and server configuration (session cache and tickets in play): it must
+	// complete again — resumed or by a silent full handshake — with both ends agreeing, and carry data intact
+	if cs.tickets && exp == expComplete {
+		out2 := handshakePair(ccfg, scfg, nil)
+		w2 := map[string]interface{}{"config": cs.name, "connection": 2, "client_error": errStr(out2.cli.err), "server_error": errStr(out2.srv.err)}
+		for side, e := range map[string]*endResult{"client": &out2.cli, "server": &out2.srv} {
+			if e.panicked != nil {
+				rep.Violation("C06/second-connection/panic/"+side+"/"+e.panicked.Func, e.panicked.Value, w2)
+			}
+		}
+		if !out2.cli.completed || !out2.srv.completed {
+			rep.Violation("C06/second-connection/fails/"+c06FailClass(cs), fmt.Sprintf("the first connection of this configuration completed; the second: client %v / server %v", out2.cli.err, out2.srv.err), w2)
+		} else {
+			c2, s2 := out2.cli.state, out2.srv.state
+			if c2.DidResume != s2.DidResume || c2.Version != s2.Version || c2.CipherSuite != s2.CipherSuite || c2.Version != cst.Version {
+				rep.Violation("C06/second-connection/ends-disagree", fmt.Sprintf("resumed %v/%v version %04x/%04x suite %04x/%04x", c2.DidResume, s2.DidResume, c2.Version, s2.Version, c2.CipherSuite, s2.CipherSuite), w2)
+			}
+			if !sameStrings(out2.cli.ekm, out2.srv.ekm) {
+				rep.Violation("C06/second-connection/ExportKeyingMaterial-differs", "", w2)
+			}
+			seed2 := r.U64()
+			c06Exchange(rep, out2.cli.conn, out2.srv.conn, seed2, 3000, r, w2, "C06")
+			out2.cli.conn.Close()
+			out2.srv.conn.Close()
+			if c2.Version == gmtls.VersionGMSSL {
+				d := ref.DecodeSession(out2.log.snapshot(), klog.masters(), pki.encKey.D)
+				if d.Err != "" {
+					rep.Violation("C06/second-connection/reference-decoder-rejects", d.Err, w2)
+				} else {
+					for _, p := range d.Problems {
+						rep.Violation("C06/second-connection/reference-decoder-problem", p, w2)
+					}
+					if d.Resumed != c2.DidResume {
+						rep.Violation("C06/second-connection/wire-resumption-differs-from-DidResume", fmt.Sprintf("wire %v state %v", d.Resumed, c2.DidResume), w2)
+					}
+					if !bytes.Equal(d.AppC2S, patBytes(seed2, 0, 0, 3000)) || !bytes.Equal(d.AppS2C, patBytes(seed2, 1, 0, 3000)) {
+						rep.Violation("C06/second-connection/reference-decodes-different-plaintext", "", w2)
+					}
+				}
+			}
+			rep.Eval(fmt.Sprintf("second-connection/srv=%s/cli=%s/suite=%s/resumed=%v", cs.srvMode, cs.cliKind, suiteNames(cs.cliSuites), c2.DidResume))
+		}
+	}
 }
 
 func classOfPanic(cs c06Case) string {
@@ -425,10 +468,29 @@ type rw interface {
 // that what arrives is exactly the sent prefix.
 func c06Exchange(rep *mon.Reporter, a, b rw, seed uint64, total int, r *mon.RNG, w map[string]interface{}, prop string) {
 	var wg sync.WaitGroup
+	// write plans (chosen by the seed, per direction): mixed sizes; a ramp of many small writes followed by writes larger than
+	// one record; one single write of everything; small writes only
 	send := func(dst io.Writer, dir int, rr *mon.RNG) {
 		defer wg.Done()
-		for off := 0; off < total; {
-			n := rr.Pick(1, 2, 100, 1000, 16383, 16384, 16385, 1+rr.Intn(30000))
+		plan := int((seed>>8)+uint64(dir)) % 5
+		rep.Count(fmt.Sprintf("write_plan_%d", plan), 1)
+		k := 0
+		for off := 0; off < total; k++ {
+			var n int
+			switch plan {
+			case 2:
+				if k < 20 {
+					n = 1 + rr.Intn(100)
+				} else {
+					n = 16385 + rr.Intn(24000)
+				}
+			case 3:
+				n = total
+			case 4:
+				n = 1 + rr.Intn(1000)
+			default:
+				n = rr.Pick(1, 2, 100, 1000, 16383, 16384, 16385, 1+rr.Intn(30000))
+			}
 			if off+n > total {
 				n = total - off
 			}
